@@ -103,6 +103,10 @@ impl Stats {
     }
     /// Record a non-trivial case by fingerprint; keeps the first few as samples.
     pub fn nontrivial<F: FnOnce() -> Value>(&mut self, fp: u64, sample: F) {
+        // memory bound: beyond 4M distinct fingerprints per shard the count is conservative
+        if self.nontrivial.len() >= 4_000_000 {
+            return;
+        }
         if self.nontrivial.insert(fp) && self.samples.len() < MAX_SAMPLES {
             self.samples.push(sample());
         }
